@@ -352,6 +352,23 @@ impl<S> ExpansionInput<S> {
         self.0 .0 .0.internal.expansions_mut()
     }
 
+    /// Returns a token to the front of the input stream and makes it unexpandable once.
+    ///
+    /// This is for expansion commands that cannot be expanded at the point they are encountered.
+    /// The command returns its own token with this method, as the last thing it does.
+    /// If the command was reached while reading the expanded stream,
+    ///     the token is then delivered as is, like any other unexpandable token.
+    /// The next time the token is read it is expanded as usual.
+    ///
+    /// This plays the role of `insert_relax` in Knuth's TeX (TeX.2021.379):
+    ///     whatever is being scanned (e.g. a number) ends in front of the token.
+    #[inline]
+    pub fn back_unexpandable(&mut self, token: Token) {
+        let internal = &mut self.0 .0 .0.internal;
+        internal.expansions_mut().push(token);
+        internal.next_token_is_unexpandable = true;
+    }
+
     #[inline]
     pub fn state_and_expansions_mut(&mut self) -> (&S, &mut Vec<Token>) {
         (&self.0 .0 .0.state, self.0 .0 .0.internal.expansions_mut())
@@ -595,6 +612,9 @@ mod stream {
                 let err_or = command(token, ExpansionInput::new(vm));
                 vm.stack_pop();
                 err_or?;
+                if std::mem::take(&mut vm.internal.next_token_is_unexpandable) {
+                    return next_unexpanded(vm);
+                }
                 next_expanded(vm)
             }
             Some(command::Command::Macro(command)) => {
@@ -635,6 +655,8 @@ mod stream {
                 let err_or = command(token, ExpansionInput::new(vm));
                 vm.stack_pop();
                 err_or?;
+                // Nothing is read here, so a token returned with `back_unexpandable` just stays in front.
+                vm.internal.next_token_is_unexpandable = false;
                 Ok(true)
             }
             Some(command::Command::Macro(command)) => {
